@@ -571,18 +571,37 @@ class Visitor(ast.NodeVisitor):
 
     def visit_BoolOp(self, node: ast.BoolOp) -> Any:
         """Recursively visit the operands and apply the operation on them."""
-        values = [self.visit(value_node) for value_node in node.values]
+        if not isinstance(node.op, (ast.And, ast.Or)):
+            raise NotImplementedError("Unhandled op of {}: {}".format(node, node.op))
+
+        # The operands are visited lazily, as Python evaluates them: the operands which Python skips
+        # (short-circuit) are often not even defined, e.g., ``xs and xs[0] > 0`` or ``x is None or x.y``.
+        values = []  # type: List[Any]
+        placeholder_seen = False
+        for i, value_node in enumerate(node.values):
+            value = self.visit(value_node)
+            values.append(value)
+
+            if value is PLACEHOLDER:
+                placeholder_seen = True
+
+            # Please see "NOTE ABOUT PLACEHOLDERS AND RE-COMPUTATION": once an operand is a placeholder,
+            # we can not know where the evaluation stops and keep on visiting for the sake of the representation.
+            #
+            # Python does not test the truthiness of the last operand.
+            if not placeholder_seen and i < len(node.values) - 1:
+                if isinstance(node.op, ast.And) and not value:
+                    break
+
+                if isinstance(node.op, ast.Or) and value:
+                    break
 
         # Please see "NOTE ABOUT PLACEHOLDERS AND RE-COMPUTATION"
-        if any(value is PLACEHOLDER for value in values):
+        if placeholder_seen:
             return PLACEHOLDER
 
-        if isinstance(node.op, ast.And):
-            result = functools.reduce(lambda left, right: left and right, values)
-        elif isinstance(node.op, ast.Or):
-            result = functools.reduce(lambda left, right: left or right, values)
-        else:
-            raise NotImplementedError("Unhandled op of {}: {}".format(node, node.op))
+        # Due to the short-circuit, the last visited operand is the value of the whole expression.
+        result = values[-1]
 
         self.recomputed_values[node] = result
         return result
@@ -591,16 +610,22 @@ class Visitor(ast.NodeVisitor):
         """Recursively visit the comparators and apply the operations on them."""
         left = self.visit(node=node.left)
 
-        comparators = [self.visit(node=comparator) for comparator in node.comparators]
+        placeholder_seen = left is PLACEHOLDER
 
-        # Please see "NOTE ABOUT PLACEHOLDERS AND RE-COMPUTATION"
-        if left is PLACEHOLDER or any(
-            comparator is PLACEHOLDER for comparator in comparators
-        ):
-            return PLACEHOLDER
-
+        # The comparators are visited lazily, as Python evaluates them: a chain stops at the first
+        # comparison which does not hold (*e.g.*, ``0 < n < 10 // n``).
         result = None  # type: Optional[Any]
-        for comparator, op in zip(comparators, node.ops):
+        for i, (comparator_node, op) in enumerate(zip(node.comparators, node.ops)):
+            comparator = self.visit(node=comparator_node)
+
+            # Please see "NOTE ABOUT PLACEHOLDERS AND RE-COMPUTATION"
+            if comparator is PLACEHOLDER:
+                placeholder_seen = True
+
+            if placeholder_seen:
+                left = comparator
+                continue
+
             if isinstance(op, ast.Eq):
                 comparison = left == comparator
             elif isinstance(op, ast.NotEq):
@@ -624,12 +649,18 @@ class Visitor(ast.NodeVisitor):
             else:
                 raise NotImplementedError("Unhandled op of {}: {}".format(node, op))
 
-            if result is None:
-                result = comparison
-            else:
-                result = result and comparison
+            result = comparison
+
+            # Python tests the truthiness of a comparison only if there are further comparisons in the chain
+            # (this matters for values which can not be negated such as numpy arrays).
+            if i < len(node.ops) - 1 and not comparison:
+                break
 
             left = comparator
+
+        # Please see "NOTE ABOUT PLACEHOLDERS AND RE-COMPUTATION"
+        if placeholder_seen:
+            return PLACEHOLDER
 
         self.recomputed_values[node] = result
         return result
